@@ -517,10 +517,10 @@ func loadFindings(path string) []finding {
 
 // ---------------------------------------------------------------------------
 
-func parentMain(p *Prop, tier string, seed uint64, verifDir string, only int) int {
+func parentMain(p *Prop, tier string, seed uint64, verifDir, outDir string, only int) int {
 	start := time.Now()
 	exe, _ := os.Executable()
-	scratch := filepath.Join(verifDir, ".scratch", fmt.Sprintf("%s-%d", p.ID, os.Getpid()))
+	scratch := filepath.Join(outDir, ".scratch", fmt.Sprintf("%s-%d", p.ID, os.Getpid()))
 	os.MkdirAll(scratch, 0o755)
 	defer os.RemoveAll(scratch)
 	par := &Parent{Prop: p, Tier: tier, Seed: seed, Counters: map[string]int64{}, sigs: map[uint64]struct{}{}, scratch: scratch, verifDir: verifDir}
@@ -580,7 +580,7 @@ func parentMain(p *Prop, tier string, seed uint64, verifDir string, only int) in
 
 	// verdict
 	findings := loadFindings(filepath.Join(verifDir, "known_findings.txt"))
-	replayDir := filepath.Join(verifDir, "replay", p.ID)
+	replayDir := filepath.Join(outDir, "replay", p.ID)
 	os.MkdirAll(replayDir, 0o755)
 	sort.Slice(par.viols, func(i, j int) bool { return par.viols[i].Idx < par.viols[j].Idx })
 	seenSig := map[string]int{}
@@ -660,10 +660,10 @@ func parentMain(p *Prop, tier string, seed uint64, verifDir string, only int) in
 		"coverage": cov, "assumptions": p.Assumptions, "wall_s": time.Since(start).Seconds(), "violations": nViol,
 	}
 	b, _ := json.MarshalIndent(ev, "", " ")
-	os.MkdirAll(filepath.Join(verifDir, "evidence"), 0o755)
-	tmp := filepath.Join(verifDir, "evidence", fmt.Sprintf(".%s.%d.tmp", p.ID, os.Getpid()))
+	os.MkdirAll(filepath.Join(outDir, "evidence"), 0o755)
+	tmp := filepath.Join(outDir, "evidence", fmt.Sprintf(".%s.%d.tmp", p.ID, os.Getpid()))
 	os.WriteFile(tmp, b, 0o644)
-	os.Rename(tmp, filepath.Join(verifDir, "evidence", p.ID+".json"))
+	os.Rename(tmp, filepath.Join(outDir, "evidence", p.ID+".json"))
 
 	// human summary
 	keys := make([]string, 0, len(par.Counters))
